@@ -339,6 +339,19 @@ fn check(case: &Case, obs: &mut Obs) -> PropResult {
 			}
 		}
 	}
+	if case.zip && case.classes.len() % 4 == 0 {
+		// a class of more than 1 MiB (an unknown attribute of 1.1 MB), the same on both sides: passed through byte-identical
+		let name = "net/minecraft/MoreThanOneMiB.class".to_string();
+		if !infos.contains_key(&name) {
+			let big = CClass { minor: 0, major: 52, access: 0x21, name: "net/minecraft/MoreThanOneMiB".into(), super_class: Some("java/lang/Object".into()), interfaces: vec![], fields: vec![], methods: vec![], attrs: vec![Attr::Unknown { name: "Blob".into(), bytes: (0..1_100_000u32).map(|i| (i % 251) as u8).collect() }] };
+			let b = encode(&big, &Choices::default()).map_err(|e| format!("harness: {e:?}"))?.bytes;
+			let model = project(&duke::read_class(&mut std::io::Cursor::new(&b)).map_err(|e| format!("duke::read_class rejected a well-formed class file: {e:#}"))?).map(|m| m.canon()).map_err(|e| format!("harness: {e}"))?;
+			client.push((name.clone(), Entry::Class(b.clone())));
+			server.push((name.clone(), Entry::Class(b.clone())));
+			infos.insert(name, Info { presence: Presence::Identical, c: Some((model.clone(), b.clone())), s: Some((model, b)) });
+			obs.label("identical_class_of_more_than_1_MiB");
+		}
+	}
 	let cj = build_jar(&client, case.parsed)?;
 	let sj = build_jar(&server, false)?;
 	let merged = if case.zip {
